@@ -2,6 +2,7 @@ import SLE.Lemmas.VMControl
 import SLE.Props.C10
 import SLE.Lemmas.MachineFacts
 import SLE.Lemmas.PathSim
+import SLE.Lemmas.LitInv
 /-!
 # C08 — control flow is followed exactly as the EVM allows
 
@@ -120,5 +121,17 @@ theorem C08_RReach_is_explore {code : Array Nat} {data : List Nat} (hb : ∀ i, 
     {c : PathSim.Conf} (h : PathSim.RReach code data c) :
     ∀ fuel, ∀ x ∈ EVM.explore {} code data fuel c.1 c.2, ∃ fuel', x ∈ EVM.explore {} code data fuel' 0 {} :=
   PathSim.explore_sound_for_RStep hb h
+
+
+/-- … and with computed jump targets, jump tables and targets passed on the stack: only storage
+keys and memory offsets need to be pushed immediately before use (every literal in every reachable
+state is a 256-bit word, so the folded value of a jump target is its concrete value). -/
+theorem C08_executed_is_evm_reachable_keys {bytes : List Nat} {code : List Disasm.Instr}
+    (H : PathSim.Prog bytes code) (hsc : PathSim.InScope bytes) (hk : LitInv.KeysLiteral code)
+    (cfg : VM.Cfg) (hlim : 1 ≤ cfg.valueLimit) (fuel : Nat) :
+    ∀ t ∈ (VM.run cfg code fuel (VM.initVM cfg code)).queue ++ (VM.run cfg code fuel (VM.initVM cfg code)).stored,
+      ∀ i ins, t.visited.getD i 0 ≠ 0 → code[i]? = some ins → ins ≠ .nop →
+        ∃ cs, PathSim.RReach (PathSim.arr bytes) (PathSim.dat bytes) (i, cs) :=
+  LitInv.executed_is_evm_reachable_keys H hsc hk cfg hlim fuel
 
 end SLE.C08
